@@ -201,6 +201,14 @@ impl<'a> Tokenizer<'a> {
                 None => break,
             }
         }
+        // Decimal::from_str stops validating once its 96-bit mantissa is full, so the shape
+        // digits[.digits] is checked here
+        let text = &self.input[start..self.current()];
+        if !text.bytes().all(|b| b.is_ascii_digit() || b == b'.')
+            || text.bytes().filter(|b| *b == b'.').count() > 1
+        {
+            return Err(Error::InvalidNumber(text.to_string()));
+        }
         match Decimal::from_str(&self.input[start..self.current()]) {
             Ok(val) => Ok(Token::Number(val, Span(start, self.current()))),
             Err(_) => Err(Error::InvalidNumber(
